@@ -466,7 +466,47 @@ def cases_stream(rng, n):
     return out
 
 
-GROUPS = {"stream": cases_stream, "packet": cases_packet, "loops": cases_loops, "keys": cases_keys, "store": cases_store, "txn": cases_txn, "fsinfo": cases_fsinfo, "message": cases_message, "device": cases_device}
+def cases_route(rng, n):
+    """what `_AdbIOManager.read` does with a packet just read from the device (both twins): parked in the store when it belongs to another stream, the stream's queue cleared on a
+    matching CLSE, returned when expected -- on random stores, transactions (incl. remote id None / zeros allowed) and packets"""
+    import ast
+    import importlib
+    from adb_shell.hidden_helpers import _AdbPacketStore, _AdbTransactionInfo
+    out = []
+    units = dict(pytrans.build_units(common.REPO))
+    ids = [0, 1, 2, 7]
+    cmds = [b"WRTE", b"OKAY", b"CLSE", b"OPEN"]
+    for fname, cls, modname in (("adb_device.py", "AdbDevice", "adb_shell.adb_device"), ("adb_device_async.py", "AdbDeviceAsync", "adb_shell.adb_device_async")):
+        u = units[fname]
+        mod = importlib.import_module(modname)
+        lean_name = "%s_io_read_route" % cls
+        fn = u.fns.get(lean_name)
+        if fn is None or any(isinstance(st, ast.Global) for st in fn["body"]):
+            continue
+        code = compile(ast.fix_missing_locations(ast.Module(body=[ast.FunctionDef(
+            name="f", args=ast.arguments(posonlyargs=[], args=[ast.arg(arg=p_) for p_ in fn["params"]], kwonlyargs=[], kw_defaults=[], defaults=[]),
+            body=copy.deepcopy(fn["body"]), decorator_list=[])], type_ignores=[])), "<%s>" % lean_name, "exec")
+        ns = dict(vars(mod))
+        exec(code, ns)
+        for _ in range(max(20, n // 2)):
+            st = _AdbPacketStore()
+            for _ in range(rng.choice([0, 1, 3, 6])):
+                st.put(rng.choice(ids), rng.choice(ids), rng.choice(cmds), rng.choice([b"", b"x"]))
+            mgr = type("_AdbIOManager", (), {})()
+            mgr._packet_store = st
+            info = _AdbTransactionInfo(rng.choice(ids), rng.choice(ids + [None]), 1, 2, 3)
+            vals = {"self": mgr, "expected_cmds": rng.choice([[b"WRTE", b"CLSE"], [b"OKAY"], [b"OKAY", b"WRTE"], [b"CLSE"]]), "adb_info": info,
+                    "allow_zeros": rng.choice([False, False, True]), "cmd": rng.choice(cmds), "arg0": rng.choice(ids), "arg1": rng.choice(ids), "data": rng.choice([b"", b"abc"])}
+            if rng.random() < 0.5:      # make a match likely
+                vals["arg0"], vals["arg1"] = (info.remote_id if info.remote_id is not None else 5), info.local_id
+            args = [vals[p_] for p_ in fn["params"]]
+            largs = " ".join(lean(a) for a in args)
+            exp = outcome(ns["f"], *[copy.deepcopy(a) for a in args])
+            out.append(("showM (%s %s)" % (lean_name, largs), exp, "%s(%s)" % (lean_name, ", ".join("%s=%s" % (p_, show(vals[p_])[:40]) for p_ in fn["params"]))))
+    return out
+
+
+GROUPS = {"route": cases_route, "stream": cases_stream, "packet": cases_packet, "loops": cases_loops, "keys": cases_keys, "store": cases_store, "txn": cases_txn, "fsinfo": cases_fsinfo, "message": cases_message, "device": cases_device}
 
 
 def run_cases(cases):
